@@ -43,7 +43,8 @@ def make_content(rng, opts=None):
     desc = lambda: b'' if rng.random() < 0.6 else rstr(rng, rng.choice([1, 10, 127, 128, 200, 255]))
     point = [G(gp, b'POINT', desc(), rng.choice([0, 1])),
              P(gp, b'USED', 'I', [], [npoints], desc(), rng.choice([0, 1])),
-             P(gp, b'SCALE', 'F', [], ['bf800000']),
+             # any float pattern: the library decides the data format from the header word, never from this parameter
+             P(gp, b'SCALE', 'F', [], [o.get('point_scale', rng.choice(['bf800000', 'bf800000', 'bc23d70a', '3c23d70a', '3f800000', '00000001', '7f800000', '80000000', 'ffc00000']))]),
              P(gp, b'RATE', 'F', [], [fhex(f2bits(prate))]),
              P(gp, b'DATA_START', 'I', [], [0]),
              P(gp, b'FRAMES', 'I', [], [nframes]),
@@ -57,9 +58,14 @@ def make_content(rng, opts=None):
                    P(ga, b'LABELS', 'C', [aw, nalabels], alab),
                    P(ga, b'GEN_SCALE', 'F', [], ['3f800000']),
                    P(ga, b'SCALE', 'F', [nchan], ['3f800000'] * nchan),
-                   P(ga, b'OFFSET', 'I', [nchan], [rng.choice([0, -32768, 32767, 5]) for _ in range(nchan)]),
+                   P(ga, b'OFFSET', 'I', [nchan], [rng.choice([0, -32768, 32767, 5, -1, -2048, 2048]) for _ in range(nchan)]),
                    P(ga, b'UNITS', 'C', [1, nchan], [b'V'] * nchan),
                    P(ga, b'RATE', 'F', [], [fhex(f2bits(arate))])]
+        # the conventional companions of OFFSET (how another program reads the samples); for this library they are ordinary parameters
+        fm = o.get('analog_format', rng.choice([None, None, b'SIGNED', b'UNSIGNED', b'UNSIGNED']))
+        if fm is not None:
+            analog.append(P(ga, b'FORMAT', 'C', [len(fm) + rng.choice([0, 2])], [fm]))
+            analog.append(P(ga, b'BITS', 'I', [], [rng.choice([12, 16])]))
     else: nchan = 0; nsub = 0
     extras = []
     for gid, name in extra_groups:
